@@ -378,6 +378,6 @@ fn main() {
     s.assume("negation is only compared on infer_new_facts_with_provenance: the other strategies document no negation support");
     s.run(&Programs);
     // coverage-guided search over the same strategy and oracle (libFuzzer drives the random stream): thorough tier
-    s.fuzz_campaign(&Programs, "libfuzzer:programs", "pbt_c05", 4_000, 8, 8192);
+    s.fuzz_campaign(&Programs, "libfuzzer:programs", "pbt_c05", 1_500, 8, 8192);
     std::process::exit(s.finish());
 }
